@@ -70,11 +70,13 @@ class GetService(DPWSPortTypeBase):
                 state_containers = list({id(state): state for state in state_containers}.values())
                 self._logger.debug('_on_get_md_state requested Handles:{} found {} states', requested_handles,
                                    len(state_containers))
+            # the version group belongs to the same snapshot as the states: read it before the lock is released
+            mdib_version_group = self._mdib.mdib_version_group
 
         factory = self._sdc_device.msg_factory
         response = data_model.msg_types.GetMdStateResponse()
         response.MdState.State.extend(state_containers)
-        response.set_mdib_version_group(self._mdib.mdib_version_group)
+        response.set_mdib_version_group(mdib_version_group)
         created_message = factory.mk_reply_soap_message(request_data, response)
         self._logger.debug('_on_get_md_state returns {}',
                            lambda: created_message.serialize())
@@ -118,18 +120,24 @@ class GetService(DPWSPortTypeBase):
     def mk_get_mddescription_response_message(self, request_data, mdib, requested_handles):
         """For simplification reason this implementation returns either all descriptors or none."""
         return_all = len(requested_handles) == 0  # if we have handles, we need to check them
+        md_description_node = None
+        # handle check, description and version group are taken in one critical section (consistent snapshot)
+        with mdib.mdib_lock:
+            for handle in requested_handles:
+                # if at least one requested handle is valid, return all.
+                if mdib.descriptions.handle.get_one(handle, allow_none=True) is not None:
+                    return_all = True
+                    break
+            if return_all:
+                md_description_node, mdib_version_group = mdib.reconstruct_md_description()
+            else:
+                mdib_version_group = mdib.mdib_version_group
         dummy_response = self._sdc_definitions.data_model.msg_types.GetMdDescriptionResponse()
-        dummy_response.set_mdib_version_group(mdib.mdib_version_group)
+        dummy_response.set_mdib_version_group(mdib_version_group)
         response = self._sdc_device.msg_factory.mk_reply_soap_message(request_data, dummy_response)
         # now add to payload_element
         response_node = response.p_msg.payload_element
-        for handle in requested_handles:
-            # if at least one requested handle is valid, return all.
-            if mdib.descriptions.handle.get_one(handle, allow_none=True) is not None:
-                return_all = True
-                break
-        if return_all:
-            md_description_node, mdib_version_group = mdib.reconstruct_md_description()
+        if md_description_node is not None:
             # append all children of md_description_node to msg_names.MdDescription node in response
             response_node[0].extend(md_description_node[:])
         return response
